@@ -416,20 +416,30 @@ PyPredict(h) == IF h <= NDunder THEN "UnitParseError" ELSE "?"
 \*   modify     default symbol Msun re-valued by modify()  modifyq   default symbol pc re-valued by a quantity
 \*   readd      default symbol pc re-valued by add() of the existing name
 \*   mixed      pc re-valued + code_time added (unit pc/code_time)
-RegKinds == <<"default", "user", "userpfx", "usermod", "modify", "modifyq", "readd", "mixed">>
-DefaultName(rk) == rk \in {"default", "modify", "modifyq", "readd", "mixed"}   \* S is a key of the default table
+\* Character class of the printed symbol (the text that is persisted is str(units); for the kinds above it is pure
+\* ASCII).  Default-registry symbols whose canonical spelling is NOT ASCII - S is given to Unit() in its ASCII spelling:
+\*   uni-micro     S = um  prints U+03BC m (beyond Latin-1)     uni-ohm    S = ohm prints U+03A9 (beyond Latin-1)
+\*   uni-angstrom  S = angstrom prints U+00C5 (Latin-1 range)   uni-degree S = degC prints U+00B0 C (Latin-1, offset unit)
+\*   uni-delta     S = delta_degC prints U+0394 U+00B0 C (both)
+RegKinds == <<"default", "user", "userpfx", "usermod", "modify", "modifyq", "readd", "mixed",
+              "uni-micro", "uni-ohm", "uni-angstrom", "uni-degree", "uni-delta">>
+UniKind(rk) == rk \in {"uni-micro", "uni-ohm", "uni-angstrom", "uni-degree", "uni-delta"}
+DefaultName(rk) == rk \in {"default", "modify", "modifyq", "readd", "mixed"} \/ UniKind(rk)   \* S is a key of the default table
 Revalued(rk) == rk \in {"modify", "modifyq", "readd", "mixed"}                 \* ... with a value of the registry's own
-Prefixable(rk) == rk \in {"default", "userpfx", "modifyq", "readd"}
+Prefixable(rk) == rk \in {"default", "userpfx", "modifyq", "readd", "uni-ohm", "uni-degree", "uni-delta"}
+OffsetSym(rk) == rk = "uni-degree"      \* powers / quotients of an offset unit are refused by unit arithmetic
 \* "MS**14": the mega-prefixed symbol to the 14th power, built by unit arithmetic (M S)**7 * (M S)**7 - a scale beyond
 \* the range of a double for pc
 Forms == <<"S", "S**2", "S/s", "kS", "MS**14">>
-Carriers == <<"array", "quantity", "unit">>
+\* "columns": two arrays written side by side, an ASCII column (km) and the column in S (savetxt only)
+Carriers == <<"array", "quantity", "unit", "columns">>
 Routes == <<"pickle2", "pickle3", "pickle4", "pickle5", "savetxt", "string", "hdf5">>
 IsPickle(rt) == rt \in {"pickle2", "pickle3", "pickle4", "pickle5"}
 PersistCase(rk, f, ca, rt) ==
   /\ (f \in {"kS", "MS**14"} => Prefixable(rk))
+  /\ (f \in {"S**2", "S/s", "MS**14"} => ~OffsetSym(rk))
   /\ (ca = "unit" => IsPickle(rt))
-  /\ (rt = "savetxt" => ca = "array")
+  /\ (rt = "savetxt" => ca \in {"array", "columns"}) /\ (ca = "columns" => rt = "savetxt")
   /\ (rt = "string" => ca = "quantity")
 \* transcription of what travels: pickle stores str(units) + the whole table (a bare Unit pickles its registry
 \* object); write_hdf5 stores str(units) + the rows whose KEY is absent from the default table; savetxt and
@@ -439,8 +449,9 @@ PersistCase(rk, f, ca, rt) ==
 HasUserName(rk) == rk \in {"user", "userpfx", "usermod", "mixed"}
 \* from_string has a grammar of its own (letters, * / and integer powers): names with "_" or parentheses are refused
 PersistPredict(rk, rt, f) ==
-  IF IsPickle(rt) \/ (f = "MS**14" /\ DefaultName(rk)) THEN "written"   \* (every reading of Mpc**14 is inf)
-  ELSE IF rt = "string" THEN (IF HasUserName(rk) THEN "raise" ELSE "written")
+  IF IsPickle(rt) \/ (f = "MS**14" /\ DefaultName(rk) /\ ~UniKind(rk)) THEN "written"   \* (every reading of Mpc**14 is inf)
+  \* (from_string: the degree sign, the angstrom sign and "_" are outside its grammar; kdegC prints in ASCII)
+  ELSE IF rt = "string" THEN (IF HasUserName(rk) \/ rk \in {"uni-angstrom", "uni-delta"} \/ (rk = "uni-degree" /\ f # "kS") THEN "raise" ELSE "written")
   \* (today write_hdf5 drops re-valued default symbols - a known finding, P fails there; the prediction is the
   \* repaired behaviour so that the check is silent with the repair applied)
   ELSE IF rt = "hdf5" THEN "written"
@@ -461,6 +472,13 @@ CarriesTable(rt) == IsPickle(rt) \/ rt = "hdf5"
 HToks == << "m", "s", "k", "P", "a", "in", "1", "0", "*", "/", "**", "(", ")" >>
 HJoiners == << " ", "", "\t" >>
 HWarm == << "joiners", "case", "pad" >>
+\* Registry contents.  What a string denotes is a function of the string and of the contents of the registry it is
+\* read under - also not of what OTHER registries (with other contents) parsed before.  Kinds:
+\*   default   UnitRegistry()                          plus    default + user symbols a, in (both prefixable)
+\*   minus     default with the symbol m removed       bare    no default symbols: user symbols a (prefixable), in, s (not)
+\* Warm-up kind "foreign": the string (under every joiner) is first parsed under a registry of ANOTHER kind q, then
+\* read under a fresh registry of kind r; the cold reading is taken before, in a process where nothing else was parsed.
+HRegs == << "default", "plus", "minus", "bare" >>
 HText(seq, j) == LET RECURSIVE Go(_)
                      Go(i) == IF i > Len(seq) THEN "" ELSE (IF i > 1 THEN HJoiners[j] ELSE "") \o HToks[seq[i]] \o Go(i + 1)
                  IN Go(1)
@@ -501,9 +519,12 @@ C20_RoundTripEqual(u, r, ext) == r.o = "Ok" /\ r.dim = u.dim /\ r.off = u.off /\
 \* something else; for a re-valued default symbol nothing is demanded of savetxt/loadtxt (no table travels and
 \* loadtxt takes no registry).
 C20_PersistEqual(w, r) == r.o = "Ok" /\ r.dim = w.dim /\ r.off = w.off /\ r.sc = "written"
+\* savetxt -> loadtxt: the reader has the default table only, so it may refuse text naming a symbol the user added
+\* (Raise); text made of default symbols (whatever characters their canonical spelling uses) must denote the unit written.
 C20_Persist(rk, rt, w, r) ==
   IF CarriesTable(rt) THEN C20_PersistEqual(w, r)
-  ELSE (rt = "savetxt" /\ Revalued(rk)) \/ r.o = "Raise" \/ C20_PersistEqual(w, r)
+  ELSE IF rt = "savetxt" THEN Revalued(rk) \/ (HasUserName(rk) /\ r.o = "Raise") \/ C20_PersistEqual(w, r)
+  ELSE r.o = "Raise" \/ C20_PersistEqual(w, r)
 \* --- history freedom: the warm registry gives the outcome, dimension, offset and scale the cold one gives
 \* (`w.sc`: harness tolerance match of the two scales); for the two constructor forms the outcome is total as well.
 C20_HistoryFree(c, w) == w.o = c.o /\ (c.o = "Ok" => w.dim = c.dim /\ w.off = c.off /\ w.sc)
